@@ -46,7 +46,7 @@ impl<C: Cfg> World<C> {
             ((isize::MAX as usize) / size).saturating_sub(len).wrapping_add(1),
             usize::MAX / size,
             (usize::MAX / size).wrapping_add(1),
-            1 << 20,
+            1 << 11,
             (1 << 40) + 7,
         ];
         edges[(k - small - 1) % edges.len()]
@@ -223,21 +223,49 @@ impl<C: Cfg> World<C> {
     }
 
     /// 2^k pushes: the number of capacity changes must be logarithmic.
-    pub fn amortisation_case(&mut self, fl: Flavour, k: u32, erased: bool, tr: &mut String) {
+    pub fn amortisation_case(&mut self, fl: Flavour, k: u32, erased: bool, prefix: u32, tr: &mut String) {
         let n = 1usize << k;
-        let _ = write!(tr, "{} x {}push: count capacity changes", n, if erased { "erased " } else { "typed " });
+        let _ = write!(tr, "prefix route {}; {} x {}push: count capacity changes", prefix % 5, n, if erased { "erased " } else { "typed " });
         // small id spaces cannot hold that many instances
         if C::T::TRACKED && !C::T::ZST && C::T::IDBYTES < 3 {
             let _ = write!(tr, " [id space too small: skipped]");
             return;
         }
         self.setup_slot(0, fl, 0, None);
+        // a route before the push run: growth must stay amortised whatever happened before
+        match prefix % 5 {
+            1 => {
+                self.do_capacity(CapOp::ReserveExact, 0, 3, false, tr);
+            }
+            2 => {
+                self.do_capacity(CapOp::ReserveExact, 0, 16, false, tr);
+                self.do_capacity(CapOp::ShrinkToFit, 0, 0, false, tr);
+            }
+            3 => {
+                self.do_capacity(CapOp::Reserve, 0, 5, false, tr);
+                self.do_bulk_push(0, 5, tr);
+                self.do_capacity(CapOp::ReserveExact, 0, 1, true, tr);
+            }
+            4 => {
+                self.do_bulk_push(0, 3, tr);
+                self.do_clear(0, false, tr);
+                self.do_capacity(CapOp::ShrinkTo, 0, 1, false, tr);
+            }
+            _ => {}
+        }
+        if prefix % 5 != 0 {
+            let _ = write!(tr, " | ");
+            self.check_state("amortisation-prefix");
+            if self.dead() {
+                return;
+            }
+        }
         let ev0 = alloc::events();
         let rel0 = relocations();
         let mut cap_changes = 0u64;
         let mut last_cap = self.vecs[0].as_ref().unwrap().capacity();
         for i in 0..n {
-            let val = C::T::make(i as u32 + 1);
+            let val = C::T::make(i as u32 + 1000);
             let vec = self.vecs[0].as_mut().unwrap();
             let r = call(|| {
                 if erased {
@@ -250,7 +278,7 @@ impl<C: Cfg> World<C> {
                 self.fail(MON_CAP | MON_MODEL, "amortisation:panic", format!("push number {} panicked", i));
                 return;
             }
-            self.model[0].push(C::T::norm(i as u32 + 1));
+            self.model[0].push(C::T::norm(i as u32 + 1000));
             let c = self.vecs[0].as_ref().unwrap().capacity();
             if c != last_cap {
                 cap_changes += 1;
